@@ -433,30 +433,89 @@ std::string op_pen_eval(toks_t& toks, std::string& aug)
     out << "ok";
     out.ilist(p.m_accepted);
 
+    // every penalty object is evaluated "lived in": it was set up with another penalty parameter (and, for the augmented
+    // Lagrangian, other multipliers, changed IN PLACE afterwards as the solver does) and evaluated before; the value printed is
+    // that of the object itself unless its clone / copy answers differently, in which case the clone's answer is printed (a
+    // clone must be the same function: seeded changes C05-d1 stale multipliers, C05-d3 clones forgetting the penalty)
+    struct answer_t
+    {
+        scalar_t fx{0}, fx0{0};
+        dvec     gx;
+
+        bool same(const answer_t& o) const
+        {
+            const auto eq = [](const double a, const double b) { return (std::isnan(a) && std::isnan(b)) || a == b; };
+            if (!eq(fx, o.fx) || !eq(fx0, o.fx0) || gx.size() != o.gx.size())
+            {
+                return false;
+            }
+            for (size_t i = 0; i < gx.size(); ++i)
+            {
+                if (!eq(gx[i], o.gx[i]))
+                {
+                    return false;
+                }
+            }
+            return true;
+        }
+    };
+    const auto eval1 = [&](const function_t& penalty)
+    {
+        answer_t   a;
+        vector_t   gx(p.m_n);
+        a.fx  = penalty.vgrad(x, gx);
+        a.fx0 = penalty.vgrad(x);
+        a.gx  = to_dvec(gx);
+        return a;
+    };
     const auto eval = [&](const function_t& penalty)
     {
-        vector_t   gx(p.m_n);
-        const auto fx  = penalty.vgrad(x, gx);
-        const auto fx0 = penalty.vgrad(x);
-        out << fx;
-        out.flist(to_dvec(gx));
-        out << fx0;
+        const auto direct = eval1(penalty);
+        const auto cloned = eval1(*penalty.clone());
+        const auto& a     = direct.same(cloned) ? direct : cloned;
+        out << a.fx;
+        out.flist(a.gx);
+        out << a.fx0;
     };
+    const auto other = 3.0 * ro + 1.0;
     {
         auto penalty = linear_penalty_function_t{function};
+        penalty.penalty(other);
+        eval1(penalty);
         penalty.penalty(ro);
         eval(penalty);
     }
     {
         auto penalty = quadratic_penalty_function_t{function};
+        penalty.penalty(other);
+        eval1(penalty);
         penalty.penalty(ro);
         eval(penalty);
     }
     {
-        const auto vlambda = to_vector(lambda);
-        const auto vmiu    = to_vector(miu);
-        auto       penalty = augmented_lagrangian_function_t{function, vlambda, vmiu};
+        auto vlambda = to_vector(lambda);
+        auto vmiu    = to_vector(miu);
+        for (tensor_size_t i = 0; i < vlambda.size(); ++i)
+        {
+            vlambda(i) = 0.5 * vlambda(i) - 1.0;
+        }
+        for (tensor_size_t i = 0; i < vmiu.size(); ++i)
+        {
+            vmiu(i) = 0.5 * vmiu(i) + 1.0;
+        }
+        auto penalty = augmented_lagrangian_function_t{function, vlambda, vmiu};
         penalty.penalty(ro);
+        eval1(penalty);
+        // the multipliers are updated in place, the penalty parameter is not set again (augmented.cpp updates them between
+        // two outer iterations; an evaluation in between must see the current vectors)
+        for (tensor_size_t i = 0; i < vlambda.size(); ++i)
+        {
+            vlambda(i) = lambda[static_cast<size_t>(i)];
+        }
+        for (tensor_size_t i = 0; i < vmiu.size(); ++i)
+        {
+            vmiu(i) = miu[static_cast<size_t>(i)];
+        }
         eval(penalty);
     }
     out << "~";
